@@ -387,6 +387,13 @@ macro_rules
   unfold alignGuardDrop at h ⊢
   sf_fun h
 
+@[sf_simp] theorem sf_alignChunkAt (fs : List Frame) (s : State) (n : Nat) (st : Cur) :
+    alignChunkAt cfg (sf fs s) n st = (alignChunkAt cfg s n st).map (sf fs) := by
+  obtain ⟨x, h⟩ : ∃ x, alignChunkAt cfg s n st = x := ⟨_, rfl⟩
+  rw [h]
+  unfold alignChunkAt at h ⊢
+  sf_fun h
+
 @[sf_simp] theorem sf_allocatePrepared (fs : List Frame) (s : State) (size rstart rend : Nat) (rev : Bool) :
     allocatePrepared cfg (sf fs s) size rstart rend rev = (allocatePrepared cfg s size rstart rend rev).map (l1 fs) := by
   obtain ⟨x, h⟩ : ∃ x, allocatePrepared cfg s size rstart rend rev = x := ⟨_, rfl⟩
